@@ -427,7 +427,10 @@ func (mw *msgWriter) writePart(part *Part, charset Charset) {
 		mimeHeader.Add(string(HeaderContentType), contentType)
 		mw.newPart(mimeHeader)
 	}
-	mw.writeBody(part.writeFunc, part.encoding)
+	// If writing the part header failed there is no part writer to write the body to
+	if mw.err == nil {
+		mw.writeBody(part.writeFunc, part.encoding)
+	}
 }
 
 // writeString writes a string into the msgWriter's io.Writer interface.
